@@ -1562,6 +1562,13 @@ func replayFile(path string, bs []int) {
 		replayChurn(ch.Churn)
 		return
 	}
+	var nc struct {
+		Node nodeCase `json:"node"`
+	}
+	if json.Unmarshal(doc.Replay, &nc) == nil && len(nc.Node.Ops) > 0 {
+		replayNode(&nc.Node)
+		return
+	}
 	var cc struct {
 		Concurrent struct {
 			Name                         string
@@ -1635,6 +1642,10 @@ func supervise() {
 }
 
 func main() {
+	if os.Getenv("C20_NODE_CHILD") != "" {
+		nodeChild() // node.go: one node life (InitConfig once per process)
+		return
+	}
 	r = vlib.NewRun("C20")
 	if os.Getenv("C20_RACE_CHILD") != "" {
 		raceChild() // race.go: this binary was built with -race and runs the concurrent stream only
@@ -1785,6 +1796,11 @@ func main() {
 	// 5b. steady-state churn: 2..4 goroutines sharing one to three size classes in free-list mode (churn.go)
 	if only == "" || only == "churn" {
 		runChurnStream(g, r.N(12, 48))
+	}
+
+	// 5c. the allocator as wired into the node: InitConfig, UTXO commits, run-time config changes, defrag_utxo (node.go)
+	if only == "" || only == "node" {
+		runNodeStream(g, r.N(4, 16), bs)
 	}
 
 	// 6. the concurrent stream once more under the race detector (thorough only; race.go)
